@@ -93,7 +93,7 @@ def offsetAt (E : Ellipsoid α) (p z s1 cc : α) : α :=
   let W := Trig.sqrt ((1 - E.e2) * (s1 * s1) + cc * cc)
   (z * cc - p * s1) / D + E.e2 * E.a * s1 * cc / (D * W)
 
-/-- the tangential offset `R` of the one-step answer (`Props/C05.roundtrip_error_partial`: the distance between
+/-- the tangential offset `R` of the one-step answer (`Props/C05.roundtrip_error_closed_form`: the distance between
 `llh2trs (trs2llh v)` and `v` is exactly `|R|`): `offsetAt` at `(s1, cc) = halley E p z` -/
 def tangentialOffsetOf (E : Ellipsoid α) (p z : α) : α :=
   offsetAt E p z (halley E p z).1 (halley E p z).2
